@@ -210,6 +210,37 @@ func faultFrames(stderr string) string {
 	return "in " + strings.Join(m, " < ")
 }
 
+// runAtomic runs the atomicity probes of the racer (mode "atomic", ms milliseconds per probe)
+func runAtomic(rep *Reporter, bin string, ms int, st *racerStats) {
+	ctx, cancel := context.WithTimeout(context.Background(), time.Duration(ms*12+60000)*time.Millisecond)
+	defer cancel()
+	cmd := exec.CommandContext(ctx, bin, "-mode", "atomic", "-n", strconv.Itoa(ms))
+	cmd.Env = goEnv("GORACE=halt_on_error=0 exitcode=0")
+	var stderr bytes.Buffer
+	cmd.Stderr = &stderr
+	out, err := cmd.Output()
+	for _, l := range strings.Split(string(out), "\n") {
+		t := strings.Split(l, "\t")
+		switch {
+		case t[0] == "ATOMIC" && len(t) >= 3:
+			st.nonlin++
+			rep.Viol("a reader observed a result that no sequential order of the calls produces (atomicity probe)", "R atomic probe="+t[1], t[2])
+		case t[0] == "PROBE" && len(t) >= 4:
+			st.histories++
+			n, _ := strconv.Atoi(t[2])
+			st.ops += n
+			st.nontrivial += n
+			rep.Case("R atomic probe=" + t[1])
+		}
+	}
+	if es := stderr.String(); strings.Contains(es, "WARNING: DATA RACE") {
+		st.races++
+		rep.Viol("data race", "R atomic", "race detector: "+firstLines(es[strings.Index(es, "WARNING: DATA RACE"):], 8))
+	} else if err != nil {
+		rep.Viol("racer process died", "R atomic", firstLines(es, 6)+" "+err.Error())
+	}
+}
+
 func runC13(t gen.Tier, rng *gen.Rng, rep *Reporter) {
 	root := verifRoot()
 	t0 := time.Now()
@@ -226,6 +257,7 @@ func runC13(t gen.Tier, rng *gen.Rng, rep *Reporter) {
 	hm := st.histories
 	runRacer(rep, bin, root, "composite", seed, 0, t.N(50, 1500), 1, 5000, time.Duration(t.N(60, 600))*time.Second, &st)
 	rep.Stat("histories_composite", st.histories-hm)
+	runAtomic(rep, bin, t.N(700, 8000), &st)
 	rep.Stat("operations", st.ops)
 	rep.Stat("operations_with_result", st.nontrivial)
 	rep.Stat("histories_checked_linearizable", st.checked)
@@ -247,6 +279,11 @@ func linesC13(lines []string, rep *Reporter) {
 		return
 	}
 	for _, l := range lines {
+		if strings.HasPrefix(l, "R atomic") {
+			var st racerStats
+			runAtomic(rep, bin, 3000, &st)
+			continue
+		}
 		m := replayRe.FindStringSubmatch(l)
 		if m == nil {
 			continue
